@@ -70,10 +70,8 @@ def check(scn, tr, out):
                 limited = True
             if opt["est"]:
                 b = c["bounds"].get(a["sid"])
-                if b is None and opt["est"] == "loose":
-                    pass  # this estimator deliberately says nothing about the session: no bound to respect
-                elif b is None:
-                    out("estimator:no-bound", "%s: estimator holds no bound for session %s" % (ctx, a["sid"]), None, None)
+                if b is None:
+                    pass  # the estimator holds no bound for this session (it may forget sessions it is not asked about): nothing to respect
                 else:
                     allowed = max(b, S.spec_min_rate(espec) if opt["unint"] else 0.0)
                     if p > allowed + 1e-9:
